@@ -165,6 +165,19 @@ def check_extent(case, ctx: Ctx):
                     if not ok:
                         raise Violation(f"extent({reg!r}) = {got} for an empty range at {s} of {name}; "
                                         f"edges {dict(zip(bt['names'], bt['edges']))}")
+                    if rot % 3 == 0:
+                        # the table and matrix fetches accept the empty range too and select the same (at most one) bin
+                        bf = call(f"bins().fetch({reg!r}) [empty range]", bsel.fetch, reg)
+                        check(bf.index.tolist() == list(range(lo, hi)),
+                              lambda: f"bins().fetch({reg!r}) rows {bf.index.tolist()}, extent says {list(range(lo, hi))}")
+                        pf = call(f"pixels().fetch({reg!r}) [empty range]", psel.fetch, reg)
+                        wantp = [(k, r[0], r[1], r[2]) for k, r in enumerate(rows) if lo <= r[0] < hi]
+                        gotp = list(zip(pf.index.tolist(), pf["bin1_id"].tolist(), pf["bin2_id"].tolist(), pf["count"].tolist()))
+                        check(gotp == wantp, lambda: f"pixels().fetch({reg!r}) = {gotp[:5]}, rows of bins {lo}..{hi} are {wantp[:5]}")
+                        A = call(f"matrix().fetch({reg!r}) [empty range]", msel.fetch, reg)
+                        check(np.array_equal(A, F[lo:hi, lo:hi]), lambda: f"matrix().fetch({reg!r}) has shape {A.shape}, extent says {(hi - lo, hi - lo)}")
+                        n_eval += 3
+                        cls["empty-range-fetch"] = cls.get("empty-range-fetch", 0) + 1
                 n_eval += 1
                 cls[label] = cls.get(label, 0) + 1
                 on_edge = s in e or t in e
